@@ -13,21 +13,24 @@ import CifModel.Lemmas.StoreFault
 namespace CifModel
 open Store Store.World Gen.ErrCodes
 
-/-- ∀ world satisfying the store invariant (so: every reachable one, `C04_inv_reachable`), ∀ op, ∀ micro-step k:
-    either k is beyond the op's last micro-step and the op runs without fault, or
+/-- ∀ world satisfying the store invariant (so: every reachable one, `C04_inv_reachable`), ∀ op, ∀ micro-step k, and ∀ database
+    `mid` — whatever the statements the function executed between its transaction statement and the failure did to the content —:
+    either k is beyond the op's last micro-step (or the op is not one `stepFault` models: see `C17_fault_modelled`) and the op runs
+    without fault, or
     * the call returns CIF_MEMORY_ERROR or CIF_ERROR,
     * no handle table changes, and every managed CIF is `Same`: content (`db`, hence `abs`), BEGIN snapshot and autocommit
       status are those before the call (inside an iterator's transaction a left-over `savepoint s`, a snapshot of the unchanged
-      content, may remain),
+      content, may remain) — PROVED from the transaction semantics: the failure handler's ROLLBACK / ROLLBACK_NESTTX / ROLLBACK_TO
+      restores the snapshot taken by BEGIN / BEGIN_NESTTX / SAVE (`failPath_same`), it is not stipulated,
     * the same call made afterwards returns exactly what the call returns when nothing had failed, and leads to a world no
       later history can tell apart from the fault-free one (`WSim`). -/
-theorem C17_atomic_under_fault (w : World) (op : Op) (k : Nat) (hinv : WInv w) :
-    stepFault w op k = step w op ∨
-    (((stepFault w op k).2.rc = some CIF_MEMORY_ERROR ∨ (stepFault w op k).2.rc = some CIF_ERROR) ∧
-     (stepFault w op k).1.chs = w.chs ∧ (stepFault w op k).1.lhs = w.lhs ∧ (stepFault w op k).1.its = w.its ∧
-     (∀ c, SlotRel Same (w.cifs.getD c none) ((stepFault w op k).1.cifs.getD c none)) ∧
-     (step (stepFault w op k).1 op).2 = (step w op).2 ∧
-     WSim (step w op).1 (step (stepFault w op k).1 op).1) := by
+theorem C17_atomic_under_fault (w : World) (op : Op) (k : Nat) (mid : Db) (hinv : WInv w) :
+    stepFault w op k mid = step w op ∨
+    (((stepFault w op k mid).2.rc = some CIF_MEMORY_ERROR ∨ (stepFault w op k mid).2.rc = some CIF_ERROR) ∧
+     (stepFault w op k mid).1.chs = w.chs ∧ (stepFault w op k mid).1.lhs = w.lhs ∧ (stepFault w op k mid).1.its = w.its ∧
+     (∀ c, SlotRel Same (w.cifs.getD c none) ((stepFault w op k mid).1.cifs.getD c none)) ∧
+     (step (stepFault w op k mid).1 op).2 = (step w op).2 ∧
+     WSim (step w op).1 (step (stepFault w op k mid).1 op).1) := by
   unfold stepFault
   cases faultAt op k with
   | none => exact Or.inl rfl
@@ -47,12 +50,61 @@ theorem C17_atomic_under_fault (w : World) (op : Op) (k : Nat) (hinv : WInv w) :
       obtain ⟨c, s⟩ := p
       right
       have hl := target_live w op c s ht
-      have hsame := recover_same op s
-      have hsim : Sim s (recover op s) := hsame.sim (hinv c s hl).txwf
+      have hsame := failPath_same op s mid
+      have hsim : Sim s (failPath op s mid) := hsame.sim (hinv c s hl).txwf
       have hw := wsim_setCif_right w c s _ hl hsim
       have hstep := step_wsim w _ hw op
       refine ⟨?_, rfl, rfl, rfl, fun c' => setCif_rel Same.refl w c s _ hl hsame c', hstep.1, hstep.2⟩
       rcases faultCode_cases m with h | h <;> simp [h]
+
+/-- for which (op, k) the theorem above is NOT the trivial left disjunct: every op that works on a CIF (`target`: a live handle; not
+    cif_create / cif_destroy, not cif_pktitr_close / cif_pktitr_abort — `C17_close_fault_is_abort` —, not the calls that only read the
+    handle: get_code, is-block, loop_get_category) and every micro-step of the op's layout really is a failing call -/
+theorem C17_fault_modelled (w : World) (op : Op) (k : Nat) (mid : Db) (c : Nat) (s : Store) (ht : target w op = some (c, s))
+    (hk : k < 4 + 2 * stmts op) :
+    (stepFault w op k mid).2.rc = some CIF_MEMORY_ERROR ∨ (stepFault w op k mid).2.rc = some CIF_ERROR := by
+  unfold stepFault faultAt
+  by_cases h1 : k < 2
+  · simp only [h1, if_true, stepFaultAt, ht]
+    rcases faultCode_cases (k == 0) with h | h <;> simp [h]
+  · by_cases h2 : k = 2
+    · subst h2
+      simp only [stepFaultAt, ht]
+      rcases faultCode_cases false with h | h <;> simp [h]
+    · have h2' : (k == 2) = false := by simpa using h2
+      simp only [h1, if_false, h2', Bool.false_eq_true, hk, if_true, stepFaultAt, ht]
+      rcases faultCode_cases (k % 2 == 1) with h | h <;> simp [h]
+
+/-- the failure handler's result does not depend on what the interrupted statements had done -/
+theorem C17_fault_path_independent (op : Op) (s : Store) (mid mid' : Db) : failPath op s mid = failPath op s mid' := by
+  unfold failPath
+  cases txClass op with
+  | top =>
+    simp only []
+    cases hb : s.begin with
+    | none => rfl
+    | some s1 => simp only []; rw [begin_rollback s s1 hb mid, begin_rollback s s1 hb mid']
+  | nest =>
+    simp only []
+    unfold Store.beginNest
+    by_cases ha : s.autocommit = true
+    · simp only [ha, if_true]
+      simp [Store.rollbackNest, Store.rollback, Store.autocommit, Store.outermost]
+    · have ha' : s.autocommit = false := by simpa using ha
+      simp only [ha', Bool.false_eq_true, if_false]
+      simp [Store.rollbackNest, Store.rollbackTo, Store.save]
+  | save =>
+    simp only []
+    by_cases ha : s.autocommit = true
+    · simp [ha]
+    · have ha' : s.autocommit = false := by simpa using ha
+      simp [ha', Store.rollbackTo, Store.save]
+  | opening =>
+    simp only []
+    cases hb : ((s.nestRO (fun _ => (Except.ok () : Except Code Unit))).1).begin with
+    | none => rfl
+    | some s1 => simp only []; rw [begin_rollback _ s1 hb mid, begin_rollback _ s1 hb mid']
+  | stmt => rfl
 
 /-- in particular: the content the data model sees (`abs`) and the autocommit status are unchanged -/
 theorem C17_abs_unchanged (s s' : Store) (h : Same s s') : abs s'.db = abs s.db ∧ s'.autocommit = s.autocommit :=
